@@ -16,6 +16,7 @@ import (
 
 	"verifsim/core"
 	"verifsim/gen"
+	"verifsim/peers"
 	"verifsim/refjson"
 )
 
@@ -77,6 +78,9 @@ var decTargets = []struct {
 	{"tFallbackAny", func() any { return new(tFallbackAny) }},
 	{"[]tFallbackValue", func() any { return new([]tFallbackValue) }},
 	{"map[string]tFallbackValue", func() any { return new(map[string]tFallbackValue) }},
+	{"peers.U200(UnmarshalerFrom)", func() any { return new(peers.U200) }},
+	{"[]peers.U200", func() any { return new([]peers.U200) }},
+	{"map[string]*peers.U220", func() any { return new(map[string]*peers.U220) }},
 	{"[]fmt.Stringer", func() any { return new([]fmt.Stringer) }},
 	{"map[string]error", func() any { return new(map[string]error) }},
 	{"struct{S fmt.Stringer;T []error}", func() any {
@@ -100,6 +104,7 @@ type DecArshalPlan struct {
 	BufioSize  int           `json:"bufio_size,omitempty"`
 	Read       core.ReadPlan `json:"read"`
 	PreWarm    int           `json:"prewarm"` // earlier pooled calls (history for C03/C18 flavours)
+	FromFunc   bool          `json:"unmarshal_from_func_for_any"`
 	Legacy     bool          `json:"v1_default_options"` // DefaultOptionsV1 (legacy error semantics: semantic errors are not fatal)
 	Noop       int           `json:"noop_opts"` // path-switching options that keep semantics: 1 AllowDuplicateNames on dup-free input, 2 declining Unmarshalers for any, 3 both
 }
@@ -117,6 +122,7 @@ func (sc *DecArshal) plan(t *core.Tape, env *Env) *DecArshalPlan {
 	p.Target = ps.Draw(len(decTargets))
 	p.TargetName = decTargets[p.Target].Name
 	p.Legacy = sc.Mode != "c03" && ps.Chance(1, 5)
+	p.FromFunc = sc.Mode != "c03" && ps.Chance(1, 6)
 	is := t.S("input")
 	mutP := 2
 	if sc.Mode == "c03" {
@@ -242,6 +248,18 @@ func (sc *DecArshal) Run(t *core.Tape, env *Env) (any, []core.Violation) {
 	if p.Legacy {
 		opts = append([]json.Options{jsonv1.DefaultOptionsV1()}, opts...)
 	}
+	if p.FromFunc {
+		// a function that handles every value itself (the route that asks the
+		// decoder whether the stream has ended before calling user code)
+		opts = append(opts, json.WithUnmarshalers(json.UnmarshalFromFunc(func(d *jsontext.Decoder, v *any) error {
+			val, err := d.ReadValue()
+			if err != nil {
+				return err
+			}
+			*v = string(val)
+			return nil
+		})))
+	}
 	tgt := decTargets[p.Target]
 
 	// history: a few earlier pooled calls so that the pooled decoder arrives used
@@ -331,14 +349,18 @@ func (sc *DecArshal) Run(t *core.Tape, env *Env) (any, []core.Violation) {
 		tw := jsontext.NewDecoder(bytes.NewBuffer(append([]byte(nil), in...)), decOpts2(p)...)
 		d := jsontext.NewDecoder(tap, decOpts2(p)...)
 		ref := refjson.Scan(in, refjson.Opts{AllowInvalidUTF8: p.AllowUTF8, AllowDuplicateNames: p.AllowDup})
+		callOpts := noopOpts(p.Noop & 2)
+		if p.FromFunc {
+			callOpts = opts[len(opts)-1:]
+		}
 		for k := 0; k < 40; k++ {
 			want := tgt.New()
-			werr := classify(json.UnmarshalDecode(tw, want, noopOpts(p.Noop&2)...))
+			werr := classify(json.UnmarshalDecode(tw, want, callOpts...))
 			wobs := observe(tw, tw.InputOffset(), true)
 			var got any
 			var gerr errClass
 			got = tgt.New()
-			gerr = classify(json.UnmarshalDecode(d, got, noopOpts(p.Noop&2)...))
+			gerr = classify(json.UnmarshalDecode(d, got, callOpts...))
 			st.Steps++
 			if gerr.Kind == "injected" {
 				st.Probe("decarshal/decode-fault-surfaced")
@@ -429,8 +451,8 @@ func (sc *DecArshal) meaningCheck(p *DecArshalPlan, text []byte, got any, tname 
 	default:
 		return nil
 	}
-	if p.AllowDup || p.AllowUTF8 {
-		return nil // later-wins / U+FFFD semantics are C08's business
+	if p.AllowDup || p.AllowUTF8 || p.FromFunc || p.Legacy {
+		return nil // later-wins / U+FFFD semantics are C08's business; a user function or v1 semantics change the meaning
 	}
 	want, err := refjson.DecodeAny(text)
 	if err != nil {
